@@ -234,8 +234,8 @@ def build_forward(run, prop, E):
     hv = z3.Array("_hdr_ver", I, I)
     n_exit = n_iter = 0
     for p, ctx, out in run_paths(E, setup, invoke):
-        run.add(*path_obligations(run, prop, f, p, ""))
         tag = {"what": "forward"}
+        run.add(*path_obligations(run, prop, f, p, "", tag=tag))
         if out[0] == "raise":
             run.add(Obligation(prop, qualname(f), "never_raises", p.pc, z3.BoolVal(False), kind="noexc", note=exc_note(out[1]), case=out[1].cls.__name__, where=where(f), tag=tag))
             continue
@@ -304,8 +304,8 @@ def build_clck_handler(run, prop, E):
         return {"self": app, "fwd": fwd}
     fnv = z3.Int("fn")
     for p, ctx, out in run_paths(E, setup, lambda E, ctx: E.call(f, [ctx["self"], SInt(fnv)])):
-        run.add(*path_obligations(run, prop, f, p, ""))
         tag = {"what": "clck_handler"}
+        run.add(*path_obligations(run, prop, f, p, "", tag=tag))
         if out[0] == "raise":
             run.add(Obligation(prop, qualname(f), "never_raises", p.pc, z3.BoolVal(False), kind="noexc", note=exc_note(out[1]), case=out[1].cls.__name__, where=where(f), tag=tag))
             continue
@@ -336,10 +336,78 @@ def witness(o, model):
     return t
 
 
+def replay_get_freq(name):
+    """Native: Transceiver.get_rx_freq / get_tx_freq on a real FakeTRX - the tuned frequency without hopping, the component of
+    HoppingParams.resolve(fn) with hopping, nothing else touched; a grid of frame numbers and allocations (the function has no other input)"""
+    from contracts.py.native import native_trx
+    gs = toolkit("gsm_shared")
+    k = 0 if name == "get_rx_freq" else 1
+    t = native_trx("G", 5900)
+    t._rx_freq, t._tx_freq = 935200000, 890200000
+    bad = []
+    fns = [0, 1, 2, 50, 51, 1325, 1326, 26 * 51 * 7 + 3, 2715647]
+    for hop in (None, (0, 0, 1), (0, 0, 3), (1, 0, 4), (17, 2, 5), (63, 63, 64)):
+        t.fh = None
+        if hop is not None:
+            hsn, maio, n = hop
+            t.fh = gs.HoppingParams(hsn, maio % n, [(900000 + 200 * i, 800000 + 200 * i) for i in range(n)])
+        before = {a: getattr(t, a) for a in ("_rx_freq", "_tx_freq", "fh", "running")}
+        for fn in fns:
+            try:
+                got = getattr(t, name)(fn)
+                want = before[("_rx_freq", "_tx_freq")[k]] if t.fh is None else t.fh.resolve(fn)[k]
+            except Exception as e:
+                got, want = "raises %s: %s" % (type(e).__name__, e), "a frequency"
+            if got != want:
+                bad.append({"hopping": hop, "fn": fn, "observed": got, "expected": want})
+            if any(getattr(t, a) is not v for a, v in before.items()):
+                bad.append({"hopping": hop, "fn": fn, "observed": "state changed", "expected": "read-only"})
+    return {"confirmed": bool(bad), "observed": bad[:4] or "as specified", "expected": "tuned frequency / component %d of resolve(fn)" % k}
+
+
+def replay_clck_handler():
+    """Native: Application.clck_handler(fn) over real TRXList contents of 0..4 transceivers: every transceiver ticked exactly once with
+    the application's forwarder and the frame number"""
+    from contracts.py.native import native_trx
+    ft = toolkit("fake_trx")
+    tl = toolkit("trx_list")
+    bad = []
+    for n in range(5):
+        for fn in (0, 1, 2715647):
+            app = ft.Application.__new__(ft.Application)
+            app.trx_list = tl.TRXList()
+            app.burst_fwd = object()
+            calls = []
+            trxs = []
+            for i in range(n):
+                t = native_trx("K%d" % i, 6000 + 10 * i)
+                t.clck_tick = (lambda fwd, f, t=t: calls.append((t, fwd, f)))
+                app.trx_list.add_trx(t)
+                trxs.append(t)
+            try:
+                app.clck_handler(fn)
+            except Exception as e:
+                bad.append({"transceivers": n, "fn": fn, "observed": "raises %s: %s" % (type(e).__name__, e)})
+                continue
+            for t in trxs:
+                got = [(c[1] is app.burst_fwd, c[2]) for c in calls if c[0] is t]
+                if got != [(True, fn)]:
+                    bad.append({"transceivers": n, "fn": fn, "transceiver": t.name, "observed ticks (forwarder ok, fn)": got, "expected": [(True, fn)]})
+    return {"confirmed": bool(bad), "observed": bad[:4] or "every transceiver ticked once", "expected": "one clck_tick(burst_fwd, fn) per transceiver"}
+
+
 def replay(payload):
     """Native: real FakeTRX objects in a real BurstForwarder; count handle_data_msg calls per recipient."""
     from contracts.py.native import native_trx
     f = payload["inputs"]
+    if f.get("what") in ("get_rx_freq", "get_tx_freq"):
+        return replay_get_freq(f["what"])
+    if f.get("what") == "clck_handler":
+        return replay_clck_handler()
+    if f.get("what") == "noeq":
+        ft = toolkit("fake_trx")
+        bad = [c.__name__ for c in ft.FakeTRX.__mro__ if c is not object and "__eq__" in vars(c)]
+        return {"confirmed": bool(bad), "observed": bad or "no __eq__ in the hierarchy", "expected": "transceivers compare by identity"}
     if f.get("what") != "forward":
         return {"confirmed": False, "error": "no native replay for %r" % f.get("what")}
     bf = toolkit("burst_fwd")
